@@ -1121,6 +1121,8 @@ class Evaluator:
         self.summ = {fid: {} for fid in w.funcs}
         self.cache = {}
         self.pb = next(iter(w.builders.values()))    # any Builder: param_of only needs the world
+        # only variables that some scanned code may write can ever be violations; reads of the others are dropped
+        self.track = w.track
 
     def ev(self, ir):
         """-> (falls, exits, raised): summaries of the paths that fall through / return / raise, or None"""
@@ -1150,7 +1152,7 @@ class Evaluator:
             return (weaken(join(join(f2, e2), r2)) or {}), None, None
         if k == "ev":
             _, var, kind, rk = ir
-            if var in self.drop and rk in ("S", "O"):
+            if var not in self.track or (var in self.drop and rk in ("S", "O")):
                 return {}, None, None
             return {var: evt(kind, rk)}, None, None
         if k == "call":
@@ -1159,7 +1161,7 @@ class Evaluator:
             s = self.cache.get(ck)
             if s is None:
                 for t in targets:
-                    st = self.summ.get(t, {})
+                    st = {v: e for v, e in self.summ.get(t, {}).items() if not is_pvar(v)}   # callee's parameters are its own
                     st = st if via_self else as_other(st)
                     s = dict(st) if s is None else join(s, st)
                 self.cache[ck] = s
@@ -1223,6 +1225,27 @@ class Evaluator:
         return -1
 
 
+def written_candidates(w):
+    """variables (and parameters) for which some scanned code contains a possibly-writing construct"""
+    out = set()
+
+    def walk(ir):
+        k = ir[0]
+        if k == "ev":
+            if ir[2] in ("mutate", "rebind", "classwrite"):
+                out.add(ir[1])
+        elif k in ("selfmut", "argpass"):
+            out.update(v for (v, rk) in ir[1])
+        elif k in ("seq", "alt"):
+            for x in ir[1]:
+                walk(x)
+        elif k in ("loop", "weak"):
+            walk(ir[1])
+    for f in w.funcs.values():
+        walk(f.ir)
+    return out
+
+
 def mutates_self_closure(w):
     """a method mutates its receiver if it stores into self or calls (through self) a method that does"""
     calls = {}
@@ -1273,6 +1296,7 @@ def analyse(repo):
         if stable:
             break
     mutates_self_closure(w)
+    w.track = written_candidates(w)
     # phase 1: nothing dropped -> which class attributes are assigned by every constructor before being read?
     ev1 = Evaluator(w, set())
     r1 = ev1.run()
@@ -1296,6 +1320,7 @@ def analyse(repo):
     r2 = ev2.run()
     for vn in w.vars:
         w.vars[vn]["initShadowed"] = vn in shadowed
+        w.vars[vn]["candidate"] = vn in w.track
     # entries
     entries = []
     nml_union = None
